@@ -240,7 +240,7 @@ fn gen_parse_case(seed: u64, name: &str, case: u64, outside: bool, hist: &mut dy
             }
             hist(if img.is_some() { "inline-image" } else { "inline-image-failing" });
             if let (Some(e), Some((w, h, b))) = (expected.as_mut(), img) {
-                e.push(format!("II:{}", ((w as u64) << 16) | ((h as u64) << 8) | b as u64));
+                e.push(format!("II:{}", planted_id(w, h, b)));
             } else {
                 expected = None;
             }
